@@ -35,6 +35,9 @@ def gen_actions(rng, kind, n, LEVELS=LEVELS):
     if kind == "nested": return [((i, i + 1), i + 2) for i in rng.sample(range(1, 9), n)]
     if kind == "nestcat": return [[[Categorical(l, LEVELS), i], i + 1] for i, l in enumerate(rng.sample(LEVELS, n))]      # a categorical inside a nested list of a dense action
     if kind == "sparsecat": return [{"f": [Categorical(l, LEVELS), 1], "g": i + 1} for i, l in enumerate(rng.sample(LEVELS, n))]
+    if kind in ("sparsecat2", "sparsecat3"):      # a categorical directly under a named feature of a sparse action (a name of several characters / of one), alone or next to a nested one
+        nm, both = ("colour", False) if kind == "sparsecat2" else ("c", True)      # (one layout per kind: the filters read the places of the categoricals off the first action)
+        return [dict([(nm, Categorical(l, LEVELS)), ("g", i + 1)] + ([("shape", [Categorical(l, LEVELS), 1])] if both else [])) for i, l in enumerate(rng.sample(LEVELS, n))]
     if rng.random() < 0.4: return [{"f%d" % i: 1} for i in rng.sample(range(1, 30), n)]      # actions that differ in the NAME of their one feature only
     return [{"k%d" % i: 1, "z": i + 1} for i in rng.sample(range(1, 9), n)]
 
@@ -74,7 +77,7 @@ def gen_interaction(rng, kind, n_inter):
     fform = rng.choice([None, None, "list", "discrete", "callable"])
     logged = rng.random() < 0.4
     same_actions = rng.random() < 0.5
-    CATK = ("cat", "densecat", "nestcat", "sparsecat")
+    CATK = ("cat", "densecat", "nestcat", "sparsecat", "sparsecat2", "sparsecat3")
     n = rng.choice([2, 3, 3, 4]) if kind not in CATK else rng.choice([2, 3, 4])
     base = gen_actions(rng, kind, n)
     relevel = kind in CATK and same_actions and rng.random() < 0.5      # later interactions list the same levels in another order
@@ -99,7 +102,7 @@ def gen_chain(rng, kind):
     for _ in range(rng.choice([1, 1, 2, 3])):
         opts = []
         if cur in ("cat", "densecat"): opts += ["repr"] * 3
-        if cur in ("nestcat", "sparsecat"): opts += ["repr-nest"] * 3
+        if cur in ("nestcat", "sparsecat", "sparsecat2", "sparsecat3"): opts += ["repr-nest"] * 3
         if cur in ("nested", "dense", "densecat"): opts.append("flatten")
         if cur in ("int", "float", "str", "dense"): opts.append("sparsify")
         if cur in ("mixed", "densenone"): opts += ["sparsify"] * 3
@@ -247,7 +250,7 @@ def run(ctx):
     rng = ctx.rng
     reqs = []
     for _ in range(ctx.n(1500, 20000)):
-        kind = rng.choice(["int", "float", "str", "cat", "cat", "dense", "densecat", "nested", "sparse", "nestcat", "sparsecat", "mixed", "densenone"])
+        kind = rng.choice(["int", "float", "str", "cat", "cat", "dense", "densecat", "nested", "sparse", "nestcat", "sparsecat", "sparsecat2", "sparsecat3", "mixed", "densenone"])
         pairs, d = gen_interaction(rng, kind, rng.choice([1, 2, 3, 4]))
         chain, cdesc = gen_chain(rng, kind)
         case = dict(d, chain=cdesc, interactions=[repr({k: (v if not callable(v) or hasattr(v, "__getstate__") else "<callable>") for k, v in it.items()})[:300] for it, _ in pairs])
